@@ -9,7 +9,7 @@ from sa import pm, slots, tm
 from sa.core import Ctx
 from sa.sm import call_kw, const_str, dotted, find_calls, fstring_skeleton, norm
 
-from . import printers, util
+from . import common, printers, util
 from .c04 import counts, index_templates, slot_families
 
 
@@ -338,6 +338,10 @@ def run(ctx: Ctx):
     _c.check_scheme_kwargs(ctx, "R02.g", "delta")
     _c.check_scheme_kwargs(ctx, "R02.g", "stiff_states")
     ctx.rule("R02.f", "the Rush-Larsen schemes emitted for C keep their zero-division guard unless the linearisation is provably non-zero (same rule as R06.b: C evaluates 0/0 to NaN)", floor=6)
+    from .c05 import check_definitions_declared
+
+    for m_ in common.scheme_models(ctx).values():
+        check_definitions_declared(ctx, "R02.f", m_)
     from .c06 import check_elision
 
     check_elision(ctx, "R02.f")
